@@ -38,6 +38,24 @@ def ext_value(dotted):
     return T.ext(dotted)
 
 
+def _struct_layout(fmt):
+    """('little'|'big', [(size, signed)]) for struct formats made of fixed-size integers with an explicit byte order"""
+    import re as _re
+    if not fmt or fmt[0] not in '<>!':
+        return None
+    order = 'little' if fmt[0] == '<' else 'big'
+    sizes = {'B': (1, False), 'b': (1, True), 'H': (2, False), 'h': (2, True), 'I': (4, False), 'i': (4, True), 'L': (4, False),
+             'l': (4, True), 'Q': (8, False), 'q': (8, True)}
+    fields = []
+    for cnt, ch in _re.findall(r'(\d*)([A-Za-z?])', fmt[1:].replace(' ', '')):
+        if ch not in sizes:
+            return None
+        fields += [sizes[ch]] * (int(cnt) if cnt else 1)
+    if ''.join('%s%s' % (c, ch) for c, ch in _re.findall(r'(\d*)([A-Za-z?])', fmt[1:].replace(' ', ''))) != fmt[1:].replace(' ', ''):
+        return None
+    return order, fields
+
+
 def _valid_sk(x):
     return T.raw_op('VALID_SK', x)
 
@@ -271,12 +289,37 @@ def _ext_call(ev, dotted, args, kwargs, fr, node):
     short = dotted.split('.')[-1]
     if dotted in ('bytes.fromhex', 'builtins.bytes.fromhex'):
         return fromhex(args[0])
+    if dotted in ('struct.unpack', 'struct.pack') and args and T.is_const(args[0]) and isinstance(args[0][1], (str, bytes)) and not kwargs:
+        lay = _struct_layout(args[0][1] if isinstance(args[0][1], str) else args[0][1].decode())
+        if lay is not None:
+            order, fields = lay
+            if dotted == 'struct.unpack' and len(args) == 2:
+                out, off = [], 0
+                for size, signed in fields:
+                    piece = T.slice_(args[1], T.const(off), T.const(off + size))
+                    out.append(T.raw_op('INT_SIGNED', piece, T.const(order)) if signed else T.int_(piece, T.const(order)))
+                    off += size
+                # unpack refuses a buffer of another length
+                fr.facts = fr.facts.add(T.eq(T.len_(args[1]), T.const(off)))
+                return T.tup(out)
+            if dotted == 'struct.pack' and len(args) == 1 + len(fields):
+                parts = []
+                for (size, signed), v in zip(fields, args[1:]):
+                    parts.append(T.raw_op('SER_SIGNED', v, T.const(size), T.const(order)) if signed else T.ser(v, T.const(size), T.const(order)))
+                return T.cat(*parts) if parts else T.const(b'')
+    if dotted == 'itertools.repeat' and len(args) == 1 and not kwargs:
+        return T.raw_op('REPEAT', args[0])
     if dotted in ('weakref.ref', 'weakref.proxy', 'weakref.ReferenceType') and len(args) == 1 and not kwargs:
         # a weak reference: what it yields later depends on whether anything else still holds the referent
         return T.raw_op('WEAKREF', args[0])
     if dotted in ('int.from_bytes', 'builtins.int.from_bytes'):
-        a = _kw(args, kwargs, ['bytes', 'byteorder'], {'byteorder': T.const('big')})
-        return T.int_(a['bytes'], a['byteorder'])
+        a = _kw(args, kwargs, ['bytes', 'byteorder', 'signed'], {'byteorder': T.const('big'), 'signed': T.FALSE})
+        if a['signed'] == T.FALSE:
+            return T.int_(a['bytes'], a['byteorder'])
+        signed_form = T.raw_op('INT_SIGNED', a['bytes'], a['byteorder'])
+        if a['signed'] == T.TRUE:
+            return signed_form
+        return T.phi(T.truth(a['signed']), signed_form, T.int_(a['bytes'], a['byteorder']))
     # ---------------------------------------------------------------- builtins
     if dotted.startswith('builtins.'):
         # a keyword (or extra positional) argument that a summary does not model is never silently dropped
@@ -324,6 +367,12 @@ def _ext_call(ev, dotted, args, kwargs, fr, node):
         if short == 'range':
             return T.raw_op('RANGE', *args)
         if short == 'zip':
+            # zip of comprehensions over one and the same iterable (columns built separately, then zipped into rows) is the
+            # comprehension of the tuples; itertools.repeat(x) supplies x to every row
+            maps = [a for a in args if T.is_op(a, 'MAP')]
+            if maps and all(T.is_op(a, 'MAP') or T.is_op(a, 'REPEAT') for a in args) \
+                    and all(m[2] == maps[0][2] and m[4] == maps[0][4] and m[5] == T.TRUE and m[6] == T.const('list') for m in maps):
+                return T.raw_op('MAP', maps[0][2], T.tup([a[3] if T.is_op(a, 'MAP') else a[2] for a in args]), maps[0][4], T.TRUE, T.const('list'))
             return T.raw_op('ZIP', *args)
         if short == 'enumerate':
             a = _kw(args, kwargs, ['iterable', 'start'], {'start': T.const(0)})
@@ -662,8 +711,20 @@ def method_call(ev, recv, name, args, kwargs, fr, node):
         return T.opaque('keyword argument(s) %s of method .%s are not modelled' % (sorted(kwargs), name))
     # int
     if name == 'to_bytes':
-        a = _kw(args, kwargs, ['length', 'byteorder'], {'length': T.const(1), 'byteorder': T.const('big')})
-        return T.ser(recv, a['length'], a['byteorder'])
+        try:
+            a = _kw(args, kwargs, ['length', 'byteorder', 'signed'], {'length': T.const(1), 'byteorder': T.const('big'), 'signed': T.FALSE})
+        except UnmodelledKeyword as e:
+            return T.opaque('keyword %s= of int.to_bytes is not modelled' % e)
+        sg = a['signed']
+        if sg not in (T.TRUE, T.FALSE):
+            sg = ev.decide(ev.truth(sg, fr), fr)      # `signed=n < 0` with n known non-negative (interval domain) is False
+        if sg == T.FALSE:
+            return T.ser(recv, a['length'], a['byteorder'])
+        # two's complement: accepts negative numbers (the unsigned form refuses them with OverflowError)
+        signed_form = T.raw_op('SER_SIGNED', recv, a['length'], a['byteorder'])
+        if sg == T.TRUE:
+            return signed_form
+        return T.phi(sg, signed_form, T.ser(recv, a['length'], a['byteorder']))
     if name == 'bit_length' and T.is_const(recv):
         return T.const(recv[1].bit_length())
     # bytes
